@@ -2,9 +2,696 @@
 From UV Require Import Lib.Base Model.Faults.
 Local Open Scope Z_scope.
 
+(* ---------------------------------------------------------------------- *)
+(* the EINTR retry loop                                                     *)
+Lemma retry_spec p o lg :
+  fst (fst (retry p o lg)) = hd Ok (strip o) /\
+  strip (snd (fst (retry p o lg))) = tl (strip o) /\
+  fst (fst (retry p o lg)) <> Intr.
+Proof.
+  revert lg; induction o as [|a o IH]; intros lg; cbn.
+  - repeat split; discriminate.
+  - destruct a; cbn; try apply IH; repeat split; discriminate.
+Qed.
+
+Lemma strip_idem o : strip (strip o) = strip o.
+Proof. induction o as [|a o IH]; cbn; auto. destruct a; cbn; congruence. Qed.
+
+Lemma strip_no_intr o : ~ In Intr (strip o).
+Proof. induction o as [|a o IH]; cbn; auto. destruct a; cbn; intuition discriminate. Qed.
+
+Lemma strip_In a o : In a (strip o) -> In a o.
+Proof. induction o as [|b o IH]; cbn; auto. destruct b; cbn; intuition. Qed.
+
+Lemma strip_app_intr k o : strip (repeat Intr k ++ o) = strip o.
+Proof. induction k; cbn; auto. Qed.
+
+(* worlds that differ only in interrupted calls *)
+Definition weq (w1 w2 : world) : Prop :=
+  w_alloc w1 = w_alloc w2 /\ strip (w_sys w1) = strip (w_sys w2).
+
+Lemma weq_refl w : weq w w.
+Proof. split; reflexivity. Qed.
+Lemma weq_strip w : weq w (strip_w w).
+Proof. split; cbn; [reflexivity | symmetry; apply strip_idem]. Qed.
+
+Lemma sysr_weq p w1 w2 :
+  weq w1 w2 -> fst (sysr p w1) = fst (sysr p w2) /\ weq (snd (sysr p w1)) (snd (sysr p w2)).
+Proof.
+  intros [Ha Hs]. unfold sysr.
+  pose proof (retry_spec p (w_sys w1) (w_log w1)) as (A1 & B1 & _).
+  pose proof (retry_spec p (w_sys w2) (w_log w2)) as (A2 & B2 & _).
+  destruct (retry p (w_sys w1) (w_log w1)) as [[a1 r1] g1].
+  destruct (retry p (w_sys w2) (w_log w2)) as [[a2 r2] g2]. cbn in *.
+  split; [congruence|]. split; cbn; congruence.
+Qed.
+
+Lemma sysr_not_intr p w : fst (sysr p w) <> Intr.
+Proof.
+  unfold sysr. pose proof (retry_spec p (w_sys w) (w_log w)) as (_ & _ & N).
+  destruct (retry p (w_sys w) (w_log w)) as [[a r] g]. exact N.
+Qed.
+
+Lemma sysr_answer p w :
+  fst (sysr p w) = hd Ok (strip (w_sys w)).
+Proof.
+  unfold sysr. pose proof (retry_spec p (w_sys w) (w_log w)) as (A & _ & _).
+  destruct (retry p (w_sys w) (w_log w)) as [[a r] g]. exact A.
+Qed.
+
+Lemma sysr_alloc p w : w_alloc (snd (sysr p w)) = w_alloc w.
+Proof. unfold sysr. destruct (retry p (w_sys w) (w_log w)) as [[a r] g]. reflexivity. Qed.
+
+Lemma sysr_fail_in p w e : fst (sysr p w) = Fail e -> In (Fail e) (w_sys w).
+Proof.
+  rewrite sysr_answer. intros H. apply strip_In.
+  destruct (strip (w_sys w)) as [|a r]; cbn in *; [discriminate|]. left; exact H.
+Qed.
+
+Lemma alloc_weq p w1 w2 :
+  weq w1 w2 -> fst (alloc p w1) = fst (alloc p w2) /\ weq (snd (alloc p w1)) (snd (alloc p w2)).
+Proof.
+  intros [Ha Hs]. unfold alloc. rewrite Ha.
+  destruct (w_alloc w2); cbn; repeat split; auto.
+Qed.
+
+Lemma alloc_false_in p w : fst (alloc p w) = false -> In false (w_alloc w).
+Proof. unfold alloc. destruct (w_alloc w) as [|[] r]; cbn; intros; try discriminate. now left. Qed.
+
+Lemma alloc_sys p w : w_sys (snd (alloc p w)) = w_sys w.
+Proof. unfold alloc. destruct (w_alloc w); reflexivity. Qed.
+Lemma alloc_incl p w : incl (w_alloc (snd (alloc p w))) (w_alloc w).
+Proof. unfold alloc. destruct (w_alloc w); cbn; [apply incl_refl | apply incl_tl, incl_refl]. Qed.
+
+Definition obs (o : out) := (o_res o, o_led o, o_cb o).
+
+(* ---------------------------------------------------------------------- *)
+(* uv__accept                                                               *)
+Lemma accept_weq l w1 w2 : weq w1 w2 -> obs (uv_accept_fd l w1) = obs (uv_accept_fd l w2).
+Proof.
+  intros H. unfold uv_accept_fd. destruct (sysr_weq PAccept4 w1 w2 H) as [E _].
+  destruct (sysr PAccept4 w1) as [a1 v1], (sysr PAccept4 w2) as [a2 v2]; cbn in E; subst.
+  destruct a2; reflexivity.
+Qed.
+
+Lemma accept_fault_safe l w :
+  (o_res (uv_accept_fd l w) = Ret RcOk /\ o_led (uv_accept_fd l w) = add_fds 1 l) \/
+  (exists e, o_res (uv_accept_fd l w) = Ret (RcErr e) /\ In (Fail e) (w_sys w) /\ o_led (uv_accept_fd l w) = l).
+Proof.
+  unfold uv_accept_fd. pose proof (sysr_not_intr PAccept4 w) as N.
+  pose proof (sysr_fail_in PAccept4 w) as F.
+  destruct (sysr PAccept4 w) as [a v]; cbn in *. destruct a.
+  - left; split; reflexivity.
+  - right; exists e; repeat split; auto.
+  - congruence.
+Qed.
+
+(* ---------------------------------------------------------------------- *)
+(* uv_write2                                                                *)
+Lemma write_step_weq s w1 w2 :
+  weq w1 w2 -> fst (uv_write_step s w1) = fst (uv_write_step s w2) /\
+               weq (snd (uv_write_step s w1)) (snd (uv_write_step s w2)).
+Proof.
+  intros H. unfold uv_write_step.
+  destruct (sysr_weq (if s then PWrite else PWritev) w1 w2 H) as [E W].
+  destruct (sysr (if s then PWrite else PWritev) w1) as [a1 v1],
+           (sysr (if s then PWrite else PWritev) w2) as [a2 v2]; cbn in *; subst.
+  destruct a2 as [|[]|]; cbn; auto.
+Qed.
+
+Lemma write2_weq n c e l w1 w2 :
+  weq w1 w2 -> obs (uv_write2 n c e l w1) = obs (uv_write2 n c e l w2).
+Proof.
+  intros H. unfold uv_write2.
+  destruct (Nat.ltb 4 n) eqn:B.
+  - destruct (alloc_weq PMalloc w1 w2 H) as [E W].
+    destruct (alloc PMalloc w1) as [b1 v1], (alloc PMalloc w2) as [b2 v2]; cbn in *; subst.
+    destruct b2; cbn; [|reflexivity].
+    destruct c; [reflexivity|]. destruct e; [|reflexivity].
+    destruct (write_step_weq (Nat.eqb n 1) v1 v2 W) as [E2 _].
+    destruct (uv_write_step (Nat.eqb n 1) v1) as [s1 x1], (uv_write_step (Nat.eqb n 1) v2) as [s2 x2];
+      cbn in *; subst. destruct s2 as [[]|]; reflexivity.
+  - cbn. destruct c; [reflexivity|]. destruct e; [|reflexivity].
+    destruct (write_step_weq (Nat.eqb n 1) w1 w2 H) as [E2 _].
+    destruct (uv_write_step (Nat.eqb n 1) w1) as [s1 x1], (uv_write_step (Nat.eqb n 1) w2) as [s2 x2];
+      cbn in *; subst. destruct s2 as [[]|]; reflexivity.
+Qed.
+
+(* what does hold for uv_write2: the result clause, and the ledger up to the one counter *)
+Lemma write2_partial n c e l w :
+  let o := uv_write2 n c e l w in
+  (o_res o = Ret RcOk /\ l_reqs (o_led o) = l_reqs l + 1) \/
+  (o_res o = Ret (RcErr ENOMEM) /\ In false (w_alloc w) /\ o_led o = add_reqs 1 l).
+Proof.
+  cbv zeta. unfold uv_write2.
+  destruct (Nat.ltb 4 n) eqn:B.
+  - pose proof (alloc_false_in PMalloc w) as F.
+    destruct (alloc PMalloc w) as [b v]; cbn in *. destruct b; cbn.
+    + left. destruct c; [split; reflexivity|]. destruct e; [|split; reflexivity].
+      destruct (uv_write_step (Nat.eqb n 1) v) as [s x]. destruct s as [[]|]; split; reflexivity.
+    + right. repeat split; auto.
+  - cbn. left. destruct c; [split; reflexivity|]. destruct e; [|split; reflexivity].
+    destruct (uv_write_step (Nat.eqb n 1) w) as [s x]. destruct s as [[]|]; split; reflexivity.
+Qed.
+
 Lemma write2_refuted_witness :
   exists (w : world) (l : ledger),
     o_res (uv_write2 6 false true l w) = Ret (RcErr ENOMEM) /\ o_led (uv_write2 6 false true l w) <> l.
 Proof.
   exists (mkW [false] [] []), l0. split; [reflexivity|]. vm_compute. discriminate.
 Qed.
+
+(* the repaired order (allocate, then register) *)
+Definition uv_write2_fixed (nbufs : nat) (connecting empty_queue : bool) (l : ledger) (w : world) : out :=
+  let big := Nat.ltb 4 nbufs in
+  let '(ok, w) := if big then alloc PMalloc w else (true, w) in
+  if negb ok then mkO (Ret (RcErr ENOMEM)) l None w
+  else
+    let o := uv_write2 nbufs connecting empty_queue l (mkW (true :: w_alloc w) (w_sys w) (w_log w)) in
+    o.
+
+Lemma write2_fixed_fault_safe n c e l w :
+  let o := uv_write2_fixed n c e l w in
+  o_res o = Ret RcOk \/ (o_res o = Ret (RcErr ENOMEM) /\ In false (w_alloc w) /\ o_led o = l).
+Proof.
+  cbv zeta. unfold uv_write2_fixed, uv_write2. destruct (Nat.ltb 4 n) eqn:B.
+  - pose proof (alloc_false_in PMalloc w) as F.
+    destruct (alloc PMalloc w) as [b v]; cbn in *. destruct b; cbn.
+    + left. destruct c; [reflexivity|]. destruct e; [|reflexivity].
+      match goal with |- context [uv_write_step ?a ?b] => destruct (uv_write_step a b) as [s x] end.
+      destruct s as [[]|]; reflexivity.
+    + right. repeat split; auto.
+  - cbn. left. destruct c; [reflexivity|]. destruct e; [|reflexivity].
+    match goal with |- context [uv_write_step ?a ?b] => destruct (uv_write_step a b) as [s x] end.
+    destruct s as [[]|]; reflexivity.
+Qed.
+
+(* ---------------------------------------------------------------------- *)
+(* uv_udp_send                                                              *)
+Lemma udp_send_weq n e p a l w1 w2 :
+  weq w1 w2 -> obs (uv_udp_send n e p a l w1) = obs (uv_udp_send n e p a l w2).
+Proof.
+  intros H. unfold uv_udp_send.
+  assert (K : forall l' v1 v2, weq v1 v2 ->
+     obs (if e && negb p then
+            let '(a0, w) := sysr PSendmsg v1 in
+            match a0 with
+            | Ok => mkO (Ret RcOk) l' (Some RcOk) w
+            | Fail EAGAIN | Fail ENOBUFS => mkO (Ret RcOk) l' None w
+            | Fail e0 => mkO (Ret RcOk) l' (Some (RcErr e0)) w
+            | Intr => mkO (Ret RcOk) l' (Some RcIntr) w
+            end else mkO (Ret RcOk) l' None v1) =
+     obs (if e && negb p then
+            let '(a0, w) := sysr PSendmsg v2 in
+            match a0 with
+            | Ok => mkO (Ret RcOk) l' (Some RcOk) w
+            | Fail EAGAIN | Fail ENOBUFS => mkO (Ret RcOk) l' None w
+            | Fail e0 => mkO (Ret RcOk) l' (Some (RcErr e0)) w
+            | Intr => mkO (Ret RcOk) l' (Some RcIntr) w
+            end else mkO (Ret RcOk) l' None v2)).
+  { intros l' v1 v2 W. destruct (e && negb p); [|reflexivity].
+    destruct (sysr_weq PSendmsg v1 v2 W) as [E _].
+    destruct (sysr PSendmsg v1) as [a1 x1], (sysr PSendmsg v2) as [a2 x2]; cbn in *; subst.
+    destruct a2 as [|[]|]; reflexivity. }
+  destruct (Nat.ltb 4 n).
+  - destruct (alloc_weq PMalloc w1 w2 H) as [E W].
+    destruct (alloc PMalloc w1) as [b1 v1], (alloc PMalloc w2) as [b2 v2]; cbn in *; subst.
+    destruct b2; cbn; [|reflexivity]. apply K; exact W.
+  - cbn. apply K; exact H.
+Qed.
+
+Lemma udp_send_fault_safe n e p a l w :
+  let o := uv_udp_send n e p a l w in
+  o_res o = Ret RcOk \/ (o_res o = Ret (RcErr ENOMEM) /\ In false (w_alloc w) /\ o_led o = l).
+Proof.
+  cbv zeta. unfold uv_udp_send.
+  assert (K : forall l' v, o_res (if e && negb p then
+            let '(a0, w) := sysr PSendmsg v in
+            match a0 with
+            | Ok => mkO (Ret RcOk) l' (Some RcOk) w
+            | Fail EAGAIN | Fail ENOBUFS => mkO (Ret RcOk) l' None w
+            | Fail e0 => mkO (Ret RcOk) l' (Some (RcErr e0)) w
+            | Intr => mkO (Ret RcOk) l' (Some RcIntr) w
+            end else mkO (Ret RcOk) l' None v) = Ret RcOk).
+  { intros l' v. destruct (e && negb p); [|reflexivity].
+    destruct (sysr PSendmsg v) as [a1 x1]. destruct a1 as [|[]|]; reflexivity. }
+  destruct (Nat.ltb 4 n).
+  - pose proof (alloc_false_in PMalloc w) as F.
+    destruct (alloc PMalloc w) as [b v]; cbn in *. destruct b; cbn.
+    + left. apply K.
+    + right. repeat split; auto. destruct l; unfold add_reqs; cbn. f_equal; lia.
+  - cbn. left. apply K.
+Qed.
+
+(* ---------------------------------------------------------------------- *)
+(* wake-up channels, reads                                                  *)
+Lemma async_send_weq l w1 w2 : weq w1 w2 -> obs (uv_async_send l w1) = obs (uv_async_send l w2).
+Proof.
+  intros H. unfold uv_async_send. destruct (sysr_weq PWrite w1 w2 H) as [E _].
+  destruct (sysr PWrite w1) as [a1 v1], (sysr PWrite w2) as [a2 v2]; cbn in E; subst.
+  destruct a2 as [|[]|]; reflexivity.
+Qed.
+
+(* an eventfd write can only answer success, EAGAIN (counter saturated) or EINTR *)
+Lemma async_send_safe l w :
+  Forall (fun a => a = Ok \/ a = Fail EAGAIN \/ a = Intr) (w_sys w) ->
+  o_res (uv_async_send l w) = Ret RcOk /\ o_led (uv_async_send l w) = l.
+Proof.
+  intros F. unfold uv_async_send.
+  pose proof (sysr_answer PWrite w) as A. pose proof (sysr_not_intr PWrite w) as N.
+  destruct (sysr PWrite w) as [a v]; cbn in *.
+  destruct a as [|e|]; [split; reflexivity| |congruence].
+  assert (In (Fail e) (w_sys w)) as I.
+  { apply strip_In. destruct (strip (w_sys w)); cbn in A; [discriminate|]. left; auto. }
+  rewrite Forall_forall in F. destruct (F _ I) as [X|[X|X]]; try discriminate.
+  inversion X; subst. split; reflexivity.
+Qed.
+
+Lemma async_io_strip o lg lg' :
+  fst (fst (uv_async_io o lg)) = fst (fst (uv_async_io (strip o) lg')).
+Proof.
+  revert lg lg'; induction o as [|a o IH]; intros; cbn; [reflexivity|].
+  destruct a as [|[]|]; cbn; auto.
+Qed.
+
+Lemma signal_event_strip o lg lg' :
+  fst (fst (uv_signal_event o lg)) = fst (fst (uv_signal_event (strip o) lg')).
+Proof.
+  revert lg lg'; induction o as [|a o IH]; intros; cbn; [reflexivity|].
+  destruct a as [|[]|]; cbn; auto.
+Qed.
+
+(* with the answers a non-blocking pipe read can give, the message is always dispatched *)
+Lemma signal_event_dispatched o lg :
+  Forall (fun a => a = Ok \/ a = Fail EAGAIN \/ a = Intr) o ->
+  fst (fst (uv_signal_event o lg)) = (Ret RcOk, true).
+Proof.
+  revert lg; induction o as [|a o IH]; intros lg F; cbn; [reflexivity|].
+  inversion F as [|x y H1 H2]; subst. destruct H1 as [X|[X|X]]; subst; cbn; auto.
+Qed.
+
+Lemma async_io_safe o lg :
+  Forall (fun a => a = Ok \/ a = Fail EAGAIN \/ a = Intr) o ->
+  fst (fst (uv_async_io o lg)) = Ret RcOk.
+Proof.
+  revert lg; induction o as [|a o IH]; intros lg F; cbn; [reflexivity|].
+  inversion F as [|x y H1 H2]; subst. destruct H1 as [X|[X|X]]; subst; cbn; auto.
+Qed.
+
+Lemma read_step_weq w1 w2 : weq w1 w2 -> fst (uv_read_step w1) = fst (uv_read_step w2).
+Proof.
+  intros H. unfold uv_read_step. destruct (sysr_weq PRead w1 w2 H) as [E _].
+  destruct (sysr PRead w1) as [a1 v1], (sysr PRead w2) as [a2 v2]; cbn in E; subst.
+  destruct a2 as [|[]|]; reflexivity.
+Qed.
+
+(* uv__close_nocheckstdio: the descriptor is gone whatever the answer, EINTR is success *)
+Lemma close_fd_spec l w :
+  snd (fst (uv_close_fd l w)) = add_fds (-1) l /\
+  (hd Ok (w_sys w) = Intr -> fst (fst (uv_close_fd l w)) = RcOk).
+Proof.
+  unfold uv_close_fd, sys. destruct (w_sys w) as [|a r]; cbn; [split; [reflexivity|discriminate]|].
+  destruct a; cbn; split; auto; discriminate.
+Qed.
+
+Lemma maybe_resize_spec need l w :
+  fst (fst (maybe_resize need l w)) = None \/
+  (fst (fst (maybe_resize need l w)) = Some SMaybeResize /\ In false (w_alloc w)).
+Proof.
+  unfold maybe_resize. destruct need; [|left; reflexivity].
+  pose proof (alloc_false_in PRealloc w) as F.
+  destruct (alloc PRealloc w) as [b v]. destruct b; cbn in *; [left; reflexivity | right; auto].
+Qed.
+
+(* ---------------------------------------------------------------------- *)
+(* thread pool start-up, fs PATH/PATH2, getaddrinfo                         *)
+Lemma pool_start_spec started n w :
+  fst (pool_start started n w) = None \/ fst (pool_start started n w) = Some SThreadPoolStart.
+Proof.
+  unfold pool_start. destruct started; [left; reflexivity|].
+  revert w; induction n as [|n IH]; intros w; cbn; [left; reflexivity|].
+  destruct (sys PPthreadCreate w) as [a v]. destruct a; auto.
+Qed.
+
+Lemma pool_start_alloc started n w : incl (w_alloc (snd (pool_start started n w))) (w_alloc w).
+Proof.
+  unfold pool_start. destruct started; [apply incl_refl|].
+  revert w; induction n as [|n IH]; intros w; cbn; [apply incl_refl|].
+  unfold sys. destruct (w_sys w) as [|a r]; cbn.
+  - apply (IH (mkW (w_alloc w) [] (PPthreadCreate :: w_log w))).
+  - destruct a; try apply incl_refl. apply (IH (mkW (w_alloc w) r (PPthreadCreate :: w_log w))).
+Qed.
+
+Definition safe_outcome (l : ledger) (w : world) (o : out) : Prop :=
+  o_res o = Ret RcOk \/
+  (o_res o = Ret (RcErr ENOMEM) /\ In false (w_alloc w) /\ o_led o = l) \/
+  (exists s, o_res o = Abort s /\ permitted s = true).
+
+Lemma fs_stat_fault_safe ps l w : safe_outcome l w (uv_fs_stat_async ps l w).
+Proof.
+  unfold safe_outcome, uv_fs_stat_async.
+  pose proof (alloc_false_in PMalloc w) as F.
+  destruct (alloc PMalloc w) as [b v]; cbn in *. destruct b; cbn.
+  - destruct (alloc PMalloc v) as [b2 v2].
+    pose proof (pool_start_spec ps 1 v2) as P.
+    destruct (pool_start ps 1 v2) as [ab x]; cbn in *. destruct P as [P|P]; subst.
+    + left; reflexivity.
+    + right; right. exists SThreadPoolStart; split; reflexivity.
+  - right; left. repeat split; auto.
+Qed.
+
+Lemma fs_rename_fault_safe ps l w : safe_outcome l w (uv_fs_rename_async ps l w).
+Proof.
+  unfold safe_outcome, uv_fs_rename_async.
+  pose proof (alloc_false_in PMalloc w) as F.
+  destruct (alloc PMalloc w) as [b v]; cbn in *. destruct b; cbn.
+  - pose proof (pool_start_spec ps 1 v) as P.
+    destruct (pool_start ps 1 v) as [ab x]; cbn in *. destruct P as [P|P]; subst.
+    + left; reflexivity.
+    + right; right. exists SThreadPoolStart; split; reflexivity.
+  - right; left. repeat split; auto.
+Qed.
+
+Lemma getaddrinfo_fault_safe ps l w : safe_outcome l w (uv_getaddrinfo None ps l w).
+Proof.
+  unfold safe_outcome, uv_getaddrinfo.
+  pose proof (alloc_false_in PMalloc w) as F.
+  destruct (alloc PMalloc w) as [b v]; cbn in *. destruct b; cbn.
+  - pose proof (pool_start_spec ps 1 v) as P.
+    destruct (pool_start ps 1 v) as [ab x]; cbn in *. destruct P as [P|P]; subst.
+    + left; reflexivity.
+    + right; right. exists SThreadPoolStart; split; reflexivity.
+  - right; left. repeat split; auto.
+Qed.
+
+Lemma getaddrinfo_idna_error code ps l w :
+  o_res (uv_getaddrinfo (Some code) ps l w) = Ret (RcOther code) /\
+  o_led (uv_getaddrinfo (Some code) ps l w) = l.
+Proof. split; reflexivity. Qed.
+
+(* ---------------------------------------------------------------------- *)
+(* uv_fs_poll_start                                                         *)
+Lemma fs_poll_start_partial act ps l w :
+  let o := uv_fs_poll_start act ps l w in
+  o_res o = Ret RcOk \/
+  (o_res o = Ret (RcErr ENOMEM) /\ In false (w_alloc w) /\
+   (o_led o = l \/ o_led o = add_dangling 1 (add_hq 1 l))) \/
+  (exists s, o_res o = Abort s /\ permitted s = true).
+Proof.
+  cbv zeta. unfold uv_fs_poll_start. destruct act; [left; reflexivity|].
+  pose proof (alloc_false_in PCalloc w) as F. pose proof (alloc_incl PCalloc w) as I.
+  destruct (alloc PCalloc w) as [b v]; cbn in *. destruct b; cbn.
+  - destruct (fs_stat_fault_safe ps (add_hq 1 (add_mem 1 l)) v) as [H|[(H1 & H2 & H3)|(s & H1 & H2)]].
+    + rewrite H. left; reflexivity.
+    + rewrite H1. cbn. right; left. repeat split; auto. right. rewrite H3.
+      destruct l; unfold add_dangling, add_mem, add_hq; cbn. f_equal; lia.
+    + rewrite H1. cbn. right; right. exists s; split; auto.
+  - right; left. repeat split; auto.
+Qed.
+
+Lemma fs_poll_start_refuted_witness :
+  exists (w : world) (l : ledger),
+    o_res (uv_fs_poll_start false true l w) = Ret (RcErr ENOMEM) /\
+    l_dangling (o_led (uv_fs_poll_start false true l w)) = l_dangling l + 1 /\
+    l_hq (o_led (uv_fs_poll_start false true l w)) = l_hq l + 1.
+Proof. exists (mkW [true; false] [] []), l0. vm_compute. repeat split. Qed.
+
+(* ---------------------------------------------------------------------- *)
+(* uv_os_environ                                                            *)
+Lemma environ_loop_partial env : forall cnt l w,
+  0 <= cnt ->
+  let o := environ_loop env cnt l w in
+  (o_res o = Ret RcOk /\ exists k, 0 <= k /\ o_led o = add_mem k l) \/
+  (o_res o = Ret (RcErr ENOMEM) /\ In false (w_alloc w) /\ exists k, -1 <= k /\ o_led o = add_mem k l).
+Proof.
+  induction env as [|h env IH]; intros cnt l w Hc; cbn.
+  - left. split; auto. exists 0. split; [lia|]. destruct l; unfold add_mem; cbn; f_equal; lia.
+  - pose proof (alloc_false_in PMalloc w) as F. pose proof (alloc_incl PMalloc w) as I.
+    destruct (alloc PMalloc w) as [b v]; cbn in *. destruct b; cbn.
+    + destruct h.
+      * destruct (IH (cnt + 1) (add_mem 1 l) v ltac:(lia)) as [(A & k & K1 & K2)|(A & B & k & K1 & K2)].
+        -- left. split; auto. exists (k + 1). split; [lia|]. rewrite K2.
+           destruct l; unfold add_mem; cbn; f_equal; lia.
+        -- right. repeat split; auto. exists (k + 1). split; [lia|]. rewrite K2.
+           destruct l; unfold add_mem; cbn; f_equal; lia.
+      * destruct (IH cnt l v Hc) as [(A & k & K1 & K2)|(A & B & k & K1 & K2)].
+        -- left. split; auto. exists k; auto.
+        -- right. repeat split; auto. exists k; auto.
+    + right. repeat split; auto. exists (-1). split; [lia|reflexivity].
+Qed.
+
+(* the failure path releases the array only: the ledger is back to [l] exactly when no name
+   had been duplicated yet *)
+Lemma os_environ_partial env l w :
+  let o := uv_os_environ env l w in
+  (o_res o = Ret RcOk) \/
+  (o_res o = Ret (RcErr ENOMEM) /\ In false (w_alloc w) /\ exists k, 0 <= k /\ o_led o = add_mem k l).
+Proof.
+  cbv zeta. unfold uv_os_environ.
+  pose proof (alloc_false_in PCalloc w) as F. pose proof (alloc_incl PCalloc w) as I.
+  destruct (alloc PCalloc w) as [b v]; cbn in *. destruct b; cbn.
+  - destruct (environ_loop_partial env 0 (add_mem 1 l) v ltac:(lia)) as [(A & _)|(A & B & k & K1 & K2)].
+    + left; auto.
+    + right. repeat split; auto. exists (k + 1). split; [lia|]. rewrite K2.
+      destruct l; unfold add_mem; cbn; f_equal; lia.
+  - right. repeat split; auto. exists 0. split; [lia|]. destruct l; unfold add_mem; cbn; f_equal; lia.
+Qed.
+
+Lemma os_environ_refuted_witness :
+  exists (env : list bool) (w : world) (l : ledger),
+    o_res (uv_os_environ env l w) = Ret (RcErr ENOMEM) /\ l_mem (o_led (uv_os_environ env l w)) = l_mem l + 2.
+Proof. exists [true; true; true], (mkW [true; true; true; false] [] []), l0. vm_compute. split; reflexivity. Qed.
+
+Lemma environ_loop_fixed_safe env : forall cnt l w,
+  let o := environ_loop_fixed env cnt l w in
+  o_res o = Ret RcOk \/
+  (o_res o = Ret (RcErr ENOMEM) /\ In false (w_alloc w) /\ o_led o = add_mem (- cnt - 1) l).
+Proof.
+  induction env as [|h env IH]; intros cnt l w; cbn; [left; reflexivity|].
+  pose proof (alloc_false_in PMalloc w) as F. pose proof (alloc_incl PMalloc w) as I.
+  destruct (alloc PMalloc w) as [b v]; cbn in *. destruct b; cbn.
+  - destruct h.
+    + destruct (IH (cnt + 1) (add_mem 1 l) v) as [A|(A & B & C)]; [left; auto|].
+      right. repeat split; auto. rewrite C. destruct l; unfold add_mem; cbn; f_equal; lia.
+    + destruct (IH cnt l v) as [A|(A & B & C)]; [left; auto|]. right; repeat split; auto.
+  - right. repeat split; auto.
+Qed.
+
+Lemma os_environ_fixed_fault_safe env l w :
+  let o := uv_os_environ_fixed env l w in
+  o_res o = Ret RcOk \/ (o_res o = Ret (RcErr ENOMEM) /\ In false (w_alloc w) /\ o_led o = l).
+Proof.
+  cbv zeta. unfold uv_os_environ_fixed.
+  pose proof (alloc_false_in PCalloc w) as F. pose proof (alloc_incl PCalloc w) as I.
+  destruct (alloc PCalloc w) as [b v]; cbn in *. destruct b; cbn.
+  - destruct (environ_loop_fixed_safe env 0 (add_mem 1 l) v) as [A|(A & B & C)]; [left; auto|].
+    right. repeat split; auto. rewrite C. destruct l; unfold add_mem; cbn; f_equal; lia.
+  - right. repeat split; auto.
+Qed.
+
+(* ---------------------------------------------------------------------- *)
+(* uv_fs_event_start                                                        *)
+Definition same_accounting (l l' : ledger) : Prop :=
+  l_reqs l' = l_reqs l /\ l_handles l' = l_handles l /\ l_hq l' = l_hq l /\
+  l_mem l' = l_mem l /\ l_dangling l' = l_dangling l.
+
+Lemma fs_event_start_partial io kw nr l w :
+  let o := uv_fs_event_start io kw nr l w in
+  o_res o = Ret RcOk \/
+  (exists s, o_res o = Abort s /\ permitted s = true) \/
+  (exists r, o_res o = Ret r /\ r <> RcOk /\ same_accounting l (o_led o) /\
+     (l_fds (o_led o) = l_fds l \/ (io = false /\ l_fds (o_led o) = l_fds l + 1)) /\
+     (l_watch (o_led o) = l_watch l \/ (r = RcErr ENOMEM /\ l_watch (o_led o) = l_watch l + 1))).
+Proof.
+  cbv zeta. unfold uv_fs_event_start.
+  assert (S2 : forall l1 v, same_accounting l l1 ->
+     (l_fds l1 = l_fds l \/ (io = false /\ l_fds l1 = l_fds l + 1)) -> l_watch l1 = l_watch l ->
+     let o := (let '(a, w0) := sys PInotifyAdd v in
+       match a with
+       | Ok => if kw then mkO (Ret RcOk) (add_handles 1 l1) None w0
+               else let '(ok, w1) := alloc PMalloc w0 in
+                    if negb ok then mkO (Ret (RcErr ENOMEM)) (add_watch 1 l1) None w1
+                    else mkO (Ret RcOk) (add_handles 1 (add_mem 1 l1)) None w1
+       | Fail e => mkO (Ret (RcErr e)) l1 None w0
+       | Intr => mkO (Ret RcIntr) l1 None w0
+       end) in
+     o_res o = Ret RcOk \/
+     (exists r, o_res o = Ret r /\ r <> RcOk /\ same_accounting l (o_led o) /\
+       (l_fds (o_led o) = l_fds l \/ (io = false /\ l_fds (o_led o) = l_fds l + 1)) /\
+       (l_watch (o_led o) = l_watch l \/ (r = RcErr ENOMEM /\ l_watch (o_led o) = l_watch l + 1)))).
+  { intros l1 v SA FD WT. cbv zeta. destruct (sys PInotifyAdd v) as [a v0]. destruct a.
+    - destruct kw; [left; reflexivity|]. destruct (alloc PMalloc v0) as [b v1]. destruct b; cbn.
+      + left; reflexivity.
+      + right. exists (RcErr ENOMEM). split; [reflexivity|]. split; [discriminate|].
+        unfold same_accounting in *. cbn. intuition.
+    - right. exists (RcErr e). cbn. split; [reflexivity|]. split; [discriminate|]. intuition.
+    - right. exists RcIntr. cbn. split; [reflexivity|]. split; [discriminate|]. intuition. }
+  destruct io.
+  - destruct (S2 l w) as [A|A]; [unfold same_accounting; intuition|left; reflexivity|reflexivity|left; exact A|right; right; exact A].
+  - destruct (sys PInotifyInit w) as [a v]. destruct a.
+    + pose proof (maybe_resize_spec nr (add_fds 1 l) v) as M.
+      unfold maybe_resize in *. destruct nr.
+      * destruct (alloc PRealloc v) as [b v1]. destruct b; cbn in *.
+        -- destruct (S2 (add_fds 1 l) v1) as [A|A];
+             [unfold same_accounting; cbn; intuition|right; cbn; split; [reflexivity|lia]|reflexivity|left; exact A|right; right; exact A].
+        -- right; left. exists SMaybeResize. split; reflexivity.
+      * cbn. destruct (S2 (add_fds 1 l) v) as [A|A];
+             [unfold same_accounting; cbn; intuition|right; cbn; split; [reflexivity|lia]|reflexivity|left; exact A|right; right; exact A].
+    + right; right. exists (RcErr e). cbn. split; [reflexivity|]. split; [discriminate|].
+      unfold same_accounting. intuition.
+    + right; right. exists RcIntr. cbn. split; [reflexivity|]. split; [discriminate|].
+      unfold same_accounting. intuition.
+Qed.
+
+Lemma fs_event_start_watch_witness :
+  exists (w : world) (l : ledger),
+    o_res (uv_fs_event_start true false false l w) = Ret (RcErr ENOMEM) /\
+    l_watch (o_led (uv_fs_event_start true false false l w)) = l_watch l + 1.
+Proof. exists (mkW [false] [] []), l0. vm_compute. split; reflexivity. Qed.
+
+(* ---------------------------------------------------------------------- *)
+(* uv_loop_init                                                             *)
+Lemma loop_init_backend_fd_witness :
+  exists (w : world) (l : ledger),
+    o_res (uv_loop_init false l w) = Ret (RcErr EMFILE) /\
+    l_mem (o_led (uv_loop_init false l w)) = l_mem l /\
+    l_fds (o_led (uv_loop_init false l w)) = l_fds l + 1.
+Proof.
+  exists (mkW [] [Ok; Fail ENOMEM; Fail EMFILE] []), l0. vm_compute. repeat split.
+Qed.
+
+Lemma loop_init_abort_witness :
+  exists (w : world) (l : ledger) (s : site),
+    o_res (uv_loop_init true l w) = Abort s /\ permitted s = false /\
+    In (Fail EMFILE) (w_sys w) /\ Forall (fun a => a = Ok \/ a = Fail EMFILE) (w_sys w).
+Proof.
+  exists (mkW [] [Ok; Ok; Ok; Ok; Ok; Fail EMFILE] []), l0, SSignalGlobalInit.
+  split; [vm_compute; reflexivity|]. split; [reflexivity|]. split; [cbn; intuition|].
+  repeat (apply Forall_cons; [auto|]). apply Forall_nil.
+Qed.
+
+(* ---------------------------------------------------------------------- *)
+(* uv_spawn: accounting on every error return                               *)
+Lemma close_fd_acc l w : same_accounting l (snd (fst (uv_close_fd l w))).
+Proof.
+  unfold uv_close_fd. destruct (sys PClose w) as [a v]. destruct a; cbn; unfold same_accounting; cbn; intuition.
+Qed.
+
+Lemma same_acc_trans a b c : same_accounting a b -> same_accounting b c -> same_accounting a c.
+Proof. unfold same_accounting; intuition congruence. Qed.
+Lemma same_acc_refl a : same_accounting a a.
+Proof. unfold same_accounting; intuition. Qed.
+
+Lemma init_stdio_acc stdio : forall l w, same_accounting l (snd (fst (init_stdio stdio l w))).
+Proof.
+  induction stdio as [|b r IH]; intros l w; cbn; [apply same_acc_refl|].
+  destruct b; [|apply IH]. destruct (sys PSocketpair w) as [a v]. destruct a; cbn; try apply same_acc_refl.
+  eapply same_acc_trans; [|apply IH]. unfold same_accounting; cbn; intuition.
+Qed.
+
+Lemma close_n_acc n : forall l w, same_accounting l (fst (close_n n l w)).
+Proof.
+  induction n as [|n IH]; intros l w; cbn; [apply same_acc_refl|].
+  pose proof (close_fd_acc l w) as C. destruct (uv_close_fd l w) as [[c l1] v]. cbn in C.
+  eapply same_acc_trans; [exact C|apply IH].
+Qed.
+
+Lemma open_streams_acc stdio : forall l w, same_accounting l (snd (fst (open_streams stdio l w))).
+Proof.
+  induction stdio as [|b r IH]; intros l w; cbn; [apply same_acc_refl|].
+  destruct b; [|apply IH].
+  pose proof (close_fd_acc l w) as C. destruct (uv_close_fd l w) as [[c l1] v]. cbn in C.
+  destruct c; cbn; try exact C.
+  destruct (sysr PIoctl v) as [a v2]. eapply same_acc_trans; [exact C|apply IH].
+Qed.
+
+(* every error return of uv_spawn leaves the request / active-handle counters and the
+   allocation ledger as they were; the handle itself is linked (it has to be closed) *)
+Lemma spawn_error_accounting stdio fc l w r :
+  o_res (uv_spawn stdio fc l w) = Ret r -> r <> RcOk ->
+  same_accounting (add_hq 1 l) (o_led (uv_spawn stdio fc l w)).
+Proof.
+  unfold uv_spawn.
+  remember (Nat.ltb 8 (length stdio)) as big eqn:HB.
+  assert (FIN : forall (exec : rc) (act : bool) (l1 : ledger) (v : world), same_accounting (add_hq 1 (if big then add_mem 1 l else l)) l1 ->
+     forall o : out, o = (let l2 := if act then add_handles 1 l1 else l1 in
+       let '(ab, l3, w3) := open_streams stdio l2 v in
+       match ab with
+       | Some s => mkO (Abort s) l3 None w3
+       | None => mkO (Ret exec) (if big then add_mem (-1) l3 else l3) None w3
+       end) ->
+     act = false -> o_res o = Ret r -> same_accounting (add_hq 1 l) (o_led o)).
+  { intros exec act l1 v SA o -> -> . cbn.
+    pose proof (open_streams_acc stdio l1 v) as OS.
+    destruct (open_streams stdio l1 v) as [[ab l3] w3]. cbn in OS.
+    destruct ab; cbn; [discriminate|]. intros _.
+    pose proof (same_acc_trans _ _ _ SA OS) as T. clear - T. unfold same_accounting in *.
+    destruct big; cbn in *; intuition lia. }
+  destruct big.
+  - destruct (alloc PMalloc w) as [b v]. destruct b; cbn.
+    2:{ intros _ _. apply same_acc_refl. }
+    pose proof (init_stdio_acc stdio (add_mem 1 (add_hq 1 l)) v) as IS.
+    destruct (init_stdio stdio (add_mem 1 (add_hq 1 l)) v) as [[e l1] v1]. cbn in IS.
+    destruct e.
+    + pose proof (close_n_acc (Z.to_nat (l_fds l1 - l_fds (add_mem 1 (add_hq 1 l)))) l1 v1) as CN.
+      destruct (close_n _ l1 v1) as [l2 v2]. cbn in *. intros _ _.
+      pose proof (same_acc_trans _ _ _ IS CN) as T. clear - T. unfold same_accounting in *; cbn in *. intuition lia.
+    + assert (SA1 : same_accounting (add_hq 1 (add_mem 1 l)) l1).
+      { clear - IS. unfold same_accounting in *; cbn in *. intuition. }
+      destruct (if fc then _ else _) as [lk v2] eqn:LK.
+      destruct lk; cbn; [discriminate|].
+      destruct (sys PPipe2 v2) as [a v3]. destruct a.
+      * destruct (sys PFork v3) as [f v4].
+        pose proof (close_fd_acc (add_fds 2 l1) v4) as C1.
+        destruct (uv_close_fd (add_fds 2 l1) v4) as [[c1 l4] v5]. cbn in C1.
+        assert (SA4 : same_accounting (add_hq 1 (add_mem 1 l)) l4).
+        { eapply same_acc_trans; [exact SA1|]. eapply same_acc_trans; [|exact C1]. unfold same_accounting; cbn; intuition. }
+        destruct f.
+        -- destruct (sysr PRead v5) as [rd v6]. destruct rd; cbn; try discriminate.
+           pose proof (close_fd_acc l4 v6) as C2. destruct (uv_close_fd l4 v6) as [[c2 l5] v7]. cbn in C2.
+           intros H N. exfalso.
+           pose proof (open_streams_acc stdio (add_handles 1 l5) v7) as OS.
+           destruct (open_streams stdio (add_handles 1 l5) v7) as [[ab l6] v8]. destruct ab; cbn in H; [discriminate|].
+           inversion H; subst; congruence.
+        -- pose proof (close_fd_acc l4 v5) as C2. destruct (uv_close_fd l4 v5) as [[c2 l5] v7]. cbn in C2.
+           intros H N. eapply (FIN (RcErr e) false l5 v7); eauto. eapply same_acc_trans; eauto.
+        -- pose proof (close_fd_acc l4 v5) as C2. destruct (uv_close_fd l4 v5) as [[c2 l5] v7]. cbn in C2.
+           intros H N. eapply (FIN RcIntr false l5 v7); eauto. eapply same_acc_trans; eauto.
+      * intros H N. eapply (FIN (RcErr e) false l1 v3); eauto.
+      * intros H N. eapply (FIN RcIntr false l1 v3); eauto.
+  - cbn.
+    pose proof (init_stdio_acc stdio (add_hq 1 l) w) as IS.
+    destruct (init_stdio stdio (add_hq 1 l) w) as [[e l1] v1]. cbn in IS.
+    destruct e.
+    + pose proof (close_n_acc (Z.to_nat (l_fds l1 - l_fds (add_hq 1 l))) l1 v1) as CN.
+      destruct (close_n _ l1 v1) as [l2 v2]. cbn in *. intros _ _.
+      eapply same_acc_trans; eauto.
+    + destruct (if fc then _ else _) as [lk v2] eqn:LK.
+      destruct lk; cbn; [discriminate|].
+      destruct (sys PPipe2 v2) as [a v3]. destruct a.
+      * destruct (sys PFork v3) as [f v4].
+        pose proof (close_fd_acc (add_fds 2 l1) v4) as C1.
+        destruct (uv_close_fd (add_fds 2 l1) v4) as [[c1 l4] v5]. cbn in C1.
+        assert (SA4 : same_accounting (add_hq 1 l) l4).
+        { eapply same_acc_trans; [exact IS|]. eapply same_acc_trans; [|exact C1]. unfold same_accounting; cbn; intuition. }
+        destruct f.
+        -- destruct (sysr PRead v5) as [rd v6]. destruct rd; cbn; try discriminate.
+           pose proof (close_fd_acc l4 v6) as C2. destruct (uv_close_fd l4 v6) as [[c2 l5] v7]. cbn in C2.
+           intros H N. exfalso.
+           destruct (open_streams stdio (add_handles 1 l5) v7) as [[ab l6] v8]. destruct ab; cbn in H; [discriminate|].
+           inversion H; subst; congruence.
+        -- pose proof (close_fd_acc l4 v5) as C2. destruct (uv_close_fd l4 v5) as [[c2 l5] v7]. cbn in C2.
+           intros H N. eapply (FIN (RcErr e) false l5 v7); eauto. eapply same_acc_trans; eauto.
+        -- pose proof (close_fd_acc l4 v5) as C2. destruct (uv_close_fd l4 v5) as [[c2 l5] v7]. cbn in C2.
+           intros H N. eapply (FIN RcIntr false l5 v7); eauto. eapply same_acc_trans; eauto.
+      * intros H N. eapply (FIN (RcErr e) false l1 v3); eauto.
+      * intros H N. eapply (FIN RcIntr false l1 v3); eauto.
+Qed.
+
+(* non-vacuity: a failing and a succeeding run of uv_spawn *)
+Lemma spawn_examples :
+  o_res (uv_spawn [true; true; false] true l0 (mkW [] [Ok; Fail EMFILE] [])) = Ret (RcErr EMFILE) /\
+  o_led (uv_spawn [true; true; false] true l0 (mkW [] [Ok; Fail EMFILE] [])) = add_hq 1 l0 /\
+  o_res (uv_spawn [true; true; false] true l0 (mkW [] [] [])) = Ret RcOk /\
+  l_fds (o_led (uv_spawn [true; true; false] true l0 (mkW [] [] []))) = 2.
+Proof. vm_compute. repeat split. Qed.
